@@ -793,12 +793,21 @@ class Prop(fw.PropBase):
     # ---------------------------------------------------------------- T
     def regen(self):
         self.gen = None
-        if os.path.exists(GEN_PATH):
-            os.remove(GEN_PATH)     # fail closed: a refused source leaves no stale Gen file behind
-        g = generate(fw.REPO)
-        text = g.coq()
-        with open(GEN_PATH, 'w') as f:
-            f.write(text)
+        try:
+            g = generate(fw.REPO)
+            text = g.coq()
+        except BaseException:
+            if os.path.exists(GEN_PATH):
+                os.remove(GEN_PATH)     # fail closed: a refused source leaves no stale Gen file behind
+            raise
+        # unchanged content is left alone and changed content is replaced atomically: another check of
+        # this property (other tree / other seed) may be reading the file at the same time
+        old = open(GEN_PATH).read() if os.path.exists(GEN_PATH) else None
+        if old != text:
+            tmp = GEN_PATH + '.tmp%d' % os.getpid()
+            with open(tmp, 'w') as f:
+                f.write(text)
+            os.replace(tmp, GEN_PATH)
         self.gen = g
         meta = list(g.meta)
         meta.append({'file': 'coq/Gen/GenStatus.v', 'labels': len(g.labels), 'loops': len(g.loops),
